@@ -115,7 +115,7 @@ def c12(pid, tier, t0):
 
 
 WRAPS = ["open", "read", "write", "close", "ftruncate", "stat", "access", "poll", "getc", "printf",
-         "ioctl", "tcgetattr", "tcsetattr", "isatty", "kill", "term_cmd", "lbuf_edit"]
+         "ioctl", "tcgetattr", "tcsetattr", "isatty", "kill", "term_cmd", "lbuf_edit", "lbuf_rd"]
 
 
 @check("C01")
@@ -162,6 +162,22 @@ def c05(pid, tier, t0):
         "explanation": "AddressSanitizer(+bounds) build of the real editor; a sanitizer report or signal, a non-zero exit, no return to the quit within the horizon, or asking for input after the quit are violations",
     }, ["typed text and patterns are valid UTF-8; ^Z, :make, :rk and the ECMD script are not in the alphabet; filters are deterministic shell commands",
         "bounded time = the per-operation horizon (20 s), far above the microseconds-to-milliseconds a command takes"])
+
+
+@check("C02")
+def c02(pid, tier, t0):
+    exe = nv.build_harness("c02_dirty", "plain", ["c02_dirty.c", "peek_ex.c", "peek_lbuf.c"], replace=["ex", "lbuf"], wraps=WRAPS)
+    res = nv.run_shards(exe, ["tier=" + tier, "deadline=%d" % dl(tier)], nv.NCPU, dl(tier) + 120)
+    return nv.finish(pid, tier, t0, res, {
+        "rule": "explicit-state search (fork snapshots, state matching on buffer table + texts + canonical histories + file contents + model) over the operations "
+                "{1d, $a|x|., 1s/^/z/, u, redo, w, w!, 1,1w, w g, w! g, e!, e f1|f2|f3, e #, b 1|2|3|+|-, external change of the current file} from 2 initial configurations; "
+                "three twin probes in every state (b + q + sentinel; e <other file>; b <other buffer>); 16-buffer run with the modified buffer in each slot; "
+                "distinct_nontrivial = distinct canonical states",
+        "depth_bound": res.stats.get("depth"),
+        "explanation": "dirtiness is decided by the harness alone: text of each buffer (read through a peek at ex.c's table) vs the content its file had when the editor last read or wrote it "
+                       "(recorded at the wrapped close()); refusal/acceptance is observed as the property says (sentinel after q, message, '*' flag)",
+    }, ["autowrite and writeany are off (defaults)", "ex mode; the vi bindings (ZZ, :q from vi, ^G flag) share ec_quit/ec_write/lbuf_modified",
+        "the clause 'allowed again' is enforced when every buffer is at the history position of its last successful whole write or read"])
 
 
 def replay(path):
